@@ -136,6 +136,22 @@ impl AsyncMetrics {
     }
 }
 
+/// Records a cancellation when an operation is abandoned (its future dropped) before it finished
+#[cfg(feature = "async")]
+struct OperationGuard<'a> {
+    metrics: &'a AsyncMetrics,
+    armed: bool,
+}
+
+#[cfg(feature = "async")]
+impl Drop for OperationGuard<'_> {
+    fn drop(&mut self) {
+        if self.armed {
+            self.metrics.record_operation_cancelled();
+        }
+    }
+}
+
 /// Statistics snapshot for async operations
 #[cfg(feature = "async")]
 #[derive(Debug, Clone)]
@@ -222,6 +238,11 @@ impl<R: AsyncRead + AsyncSeek + Unpin + Send + 'static> AsyncArchiveReader<R> {
         })?;
 
         self.metrics.record_operation_start();
+        // if this future is dropped before it finishes, the operation counts as cancelled
+        let mut guard = OperationGuard {
+            metrics: &self.metrics,
+            armed: true,
+        };
 
         // Apply timeout to the entire operation
         let result = timeout(self.config.operation_timeout, async {
@@ -243,6 +264,7 @@ impl<R: AsyncRead + AsyncSeek + Unpin + Send + 'static> AsyncArchiveReader<R> {
             Ok(bytes_read)
         })
         .await;
+        guard.armed = false;
 
         match result {
             Ok(Ok(bytes_read)) => {
